@@ -134,7 +134,8 @@ func Link(obj, exe string, deps []string, o BuildOpts) (bool, string) {
 		case ".o":
 			args = append(args, d)
 		case ".c":
-			out := filepath.Join(dir, "ddpextern_"+strings.TrimSuffix(base, ".c")+fmt.Sprintf("_%d.o", len(args)))
+			// unique per linked object: several links may run concurrently in one directory
+			out := filepath.Join(dir, "ddpextern_"+strings.TrimSuffix(filepath.Base(obj), ".o")+"_"+strings.TrimSuffix(base, ".c")+fmt.Sprintf("_%d.o", len(args)))
 			cargs := []string{"-O2", "-c", "-Wall", "-o", out, d, "-I" + filepath.Join(DDP, "lib", "runtime", "include"), "-I" + filepath.Join(DDP, "lib", "stdlib", "include")}
 			if o.Asan {
 				cargs = append(cargs, "-fsanitize=address", "-g")
